@@ -147,6 +147,7 @@ def run(ctx):
     ctx.guard("C13.R4", "unordered samples", lambda: r4_unordered_samples(ctx))
     ctx.guard("C13.R5", "recombination driver", lambda: r5_recombination_driver(ctx))
     ctx.guard("C13.R6", "crossover helpers", lambda: r6_crossover_helpers(ctx))
+    ctx.guard("C13.R6", "helper contracts", lambda: r6b_contracts_cover_panics(ctx))
     ctx.guard("C13.R7", "mutation components", lambda: r7_mutation_components(ctx))
     ctx.guard("C13.R8", "recombination operators", lambda: r8_recombination_operators(ctx))
     ctx.guard("C13.R9", "documented parameter domains", lambda: r9_parameter_domains(ctx))
@@ -156,6 +157,20 @@ def run(ctx):
 
 MF = "mahf::components::mutation::functional::"
 RF = "mahf::components::recombination::functional::"
+
+
+def panic_kind(p):
+    """'contract' when the path ends in an explicit panic with a message (contracts::requires, assert!, panic!), 'incidental'
+    for bounds checks, arithmetic overflow, unwrap on None/Err and std calls that panic on this input"""
+    if p.end == "panic":
+        return "incidental"
+    calls = [e for e in p.events if e.kind == "call"]
+    if calls and str(calls[-1].data[0]).startswith("core::panicking::"):
+        k = str(calls[-1].data[0])
+        if "panic_bounds_check" in k or "unwrap_failed" in k or "expect_failed" in k:
+            return "incidental"
+        return "contract"
+    return "incidental"
 
 
 def run_helper(F, fn, args, heap, prefix):
@@ -267,6 +282,41 @@ def _children(h, ret):
     if isinstance(ret, Agg) and ret.kind == "array" and len(ret.fields) == 2 and all(isinstance(x, Vec) for x in ret.fields):
         return [list(h.get(x.vid, ())) for x in ret.fields]
     return None
+
+
+def r6b_contracts_cover_panics(ctx):
+    """An input that a helper's own contract accepts must not panic later on (index out of bounds, overflow): the contract
+    is the helper's documentation of its valid inputs.  Masks / alpha vectors one shorter, equal and one longer than the
+    parents; cut points at and beyond the length."""
+    import itertools
+    from absint import Interp, Sym, std_oracle, chain
+    from collmodel import coll_oracle, install, Vec
+    F = ctx.facts
+    cases = []
+    n = 3
+    A, B = tuple(Sym("a%d" % i) for i in range(n)), tuple(Sym("b%d" % i) for i in range(n))
+    for m in (n - 1, n, n + 1):
+        for mask in ((True,) * m, (False,) * m, tuple(i % 2 == 0 for i in range(m))):
+            cases.append((RF + "uniform_crossover", "mask of length %d for parents of length %d" % (m, n), [Vec("p1", True), Vec("p2", True), Vec("m", True)], {"p1": A, "p2": B, "m": mask}))
+        cases.append((RF + "arithmetic_crossover", "%d alphas for parents of length %d" % (m, n), [Vec("p1", True), Vec("p2", True), Vec("m", True)],
+                      {"p1": (1.0, 2.0, 3.0), "p2": (3.0, 2.0, 1.0), "m": (0.25,) * m}))
+    for idx in ((0,), (2,), (3,), (1, 3)):
+        cases.append((RF + "multi_point_crossover", "cut points %s for parents of length %d" % (list(idx), n), [Vec("p1", True), Vec("p2", True), Vec("m", True)], {"p1": A, "p2": B, "m": idx}))
+    by_fn = {}
+    for key, label, args, heap in cases:
+        fn = F.fn(key)
+        it = install(Interp(fn.body, chain(coll_oracle, std_oracle), args, facts=F, inline=lambda k: k.startswith(RF), max_visits=40))
+        it.init_state = {"heap": dict(heap), "next_vec": 0}
+        for p in it.run():
+            if p.end in ("panic", "diverge") and panic_kind(p) == "incidental":
+                why = [e.data for e in p.events if e.kind == "panic"][-1:] or ["panic"]
+                by_fn.setdefault(key, []).append((label, str(why[0])[:80]))
+            elif p.end not in ("return", "panic", "diverge"):
+                by_fn.setdefault(key, []).append((label, "could not be evaluated (%s)" % p.end))
+    for key in sorted({c[0] for c in cases}):
+        fn = F.fn(key)
+        bad = by_fn.get(key, [])
+        ctx.check(not bad, "C13.R6", key, "contract-covers-later-panics", "%s: accepted by the helper's contract, then panics (%s)" % (bad[0] if bad else ("", "")), detail="%d inputs" % len([c for c in cases if c[0] == key]), loc=fn.loc())
 
 
 def r6_crossover_helpers(ctx):
@@ -523,10 +573,10 @@ MC = "mahf::components::mutation::common::"
 IND = "mahf::problems::individual::Individual"
 
 
-def draw_oracle(script, rate, extra=None, self_ty=None):
+def draw_oracle(script, rate, extra=None, self_ty=None, strength=0.5):
     """random draws answered from the script (NeedDraw with the domain when it is exhausted)"""
     import itertools
-    from absint import Sym, Agg, TOP, some, ok
+    from absint import Sym, Agg, TOP, some, ok, err
     from collmodel import load, new_vec
     extra = extra or {}
 
@@ -561,8 +611,8 @@ def draw_oracle(script, rate, extra=None, self_ty=None):
                 r = Agg("adt", "mahf::components::mutation::MutationRate", "MutationRate", [rate, Sym("phantom")])
                 return r if k.endswith("::borrow") else rate
             if ga.startswith("mahf::components::mutation::MutationStrength<"):
-                r = Agg("adt", "mahf::components::mutation::MutationStrength", "MutationStrength", [0.5, Sym("phantom")])
-                return r if k.endswith("::borrow") else 0.5
+                r = Agg("adt", "mahf::components::mutation::MutationStrength", "MutationStrength", [strength, Sym("phantom")])
+                return r if k.endswith("::borrow") else strength
             return TOP
         if k == "rand::rng::Rng::gen_bool":
             p_ = load(interp, env, args[1])
@@ -597,8 +647,14 @@ def draw_oracle(script, rate, extra=None, self_ty=None):
         if k == "rand::distributions::bernoulli::Bernoulli::new":
             return ok(Sym("bernoulli"))
         if k == "rand_distr::normal::Normal::new":
+            sd = load(interp, env, args[1]) if len(args) > 1 else None
+            if isinstance(sd, float) and not (sd >= 0.0):
+                return err(Sym("normal::Error::BadVariance"))
             return ok(Sym("normal"))
         if k in ("rand::distributions::uniform::Uniform::new", "rand::distributions::uniform::Uniform::new_inclusive"):
+            lo_, hi_ = (load(interp, env, a) for a in args[:2]) if len(args) >= 2 else (None, None)
+            if isinstance(lo_, float) and isinstance(hi_, float) and not (lo_ < hi_ if k.endswith("::new") else lo_ <= hi_):
+                return "DIVERGE"     # rand: `Uniform::new called with low >= high`
             return Sym("uniform")
         if k == "rand::distributions::distribution::Distribution::sample":
             return Sym("noise")
@@ -608,7 +664,7 @@ def draw_oracle(script, rate, extra=None, self_ty=None):
     return oracle
 
 
-def run_component(F, fn, me, sols, rate, extra=None, heap_extra=None):
+def run_component(F, fn, me, sols, rate, extra=None, heap_extra=None, strength=0.5):
     self_ty = fn.impl_self_ty
     """[(draw script, end, ret, final solutions, mstate)] over every draw sequence"""
     from absint import Interp, Sym, Agg, some, std_oracle, chain
@@ -617,7 +673,7 @@ def run_component(F, fn, me, sols, rate, extra=None, heap_extra=None):
                      or k.startswith("mahf::components::mutation::") or k.startswith("<mahf::components::mutation::"))
 
     def once(script):
-        it = install(Interp(fn.body, chain(draw_oracle(script, rate, extra, self_ty), coll_oracle, std_oracle), [me, Sym("problem"), Sym("state")], facts=F, inline=inl, max_visits=60))
+        it = install(Interp(fn.body, chain(draw_oracle(script, rate, extra, self_ty, strength), coll_oracle, std_oracle), [me, Sym("problem"), Sym("state")], facts=F, inline=inl, max_visits=60))
         heap = {"cur": tuple(Agg("adt", IND, "Individual", [Vec("s%d" % i), some(Sym("o%d" % i))]) for i in range(len(sols)))}
         for i, sv in enumerate(sols):
             heap["s%d" % i] = tuple(sv)
@@ -654,7 +710,7 @@ def r7_mutation_components(ctx):
         cnt = 0
         pname = next(iter(params), None)
         for pv in (params[pname] if pname else (None,)):
-            for n in range(max(nmin, (pv + 1) if name == "SwapMutation" else 0), NMAX + 1):
+            for n in range(max(nmin, pv if name == "SwapMutation" else 0), NMAX + 1):
                 fields = {}
                 if pname:
                     fields[F.field_index(adt, pname)] = pv
@@ -675,6 +731,33 @@ def r7_mutation_components(ctx):
         ctx.check(not bad, "C13.R7", fn.key, "valid-population-gives-permutation",
                   "solution of length %s, %sdraws %s: %s" % (bad[0] if bad else ("", "", "", "")), detail="%d draw sequences" % cnt, loc=fn.loc())
         ctx.floor("C13.R7", "%s draw sequences" % name, cnt, 3)
+    # ---- documented errors are errors, never panics
+    adt = MC + "SwapMutation"
+    fn = F.method(adt, "execute", COMP)
+    bad = []
+    for pv, n in ((3, 2), (4, 3), (2, 1)):
+        me = Sym("self", {F.field_index(adt, "num_swap"): pv})
+        for (script, end, ret, final, ms) in run_component(F, fn, me, [[Sym("e%d" % i) for i in range(n)]], 0.3):
+            if end != "return" or not (isinstance(ret, Agg) and ret.variant == "Err"):
+                bad.append((pv, n, "ends with %s %s" % (end, ret)))
+    ctx.check(not bad, "C13.R7", fn.key, "too-many-swaps-is-an-error", "num_swap %s on a solution of length %s (documented: `Err` if num_swap is greater than the solution length): %s" % (bad[0] if bad else ("", "", "")), loc=fn.loc())
+    for name in ("UniformMutation", "NormalMutation"):
+        adt = MC + name
+        fn = F.method(adt, "execute", COMP)
+        bad = []
+        for strength in (0.0, -1.0, float("nan")):
+            fields = {F.field_index(adt, "rm"): 1.0}
+            for fname in ("std_dev", "bound"):
+                try:
+                    fields[F.field_index(adt, fname)] = 0.5
+                except Exception:
+                    pass
+            for (script, end, ret, final, ms) in run_component(F, fn, Sym("self", fields), [[Sym("e0"), Sym("e1")]], 1.0, strength=strength):
+                if end in ("panic", "diverge"):
+                    bad.append((strength, "panics"))
+                elif end != "return":
+                    bad.append((strength, "could not be evaluated (%s)" % end))
+        ctx.check(not bad, "C13.R7", fn.key, "invalid-strength-is-an-error", "stored MutationStrength %s (documented: `Err` if the MutationStrength contains an invalid value): the component %s" % (bad[0] if bad else ("", "")), loc=fn.loc())
     # ---- rate-gated mutations
     gated = [("NormalMutation", "real"), ("UniformMutation", "real"), ("PartialRandomSpread", "real"), ("BitFlipMutation", "bit"), ("PartialRandomBitstring", "bit"), ("ScrambleMutation", "perm")]
     for name, kind in gated:
@@ -940,6 +1023,34 @@ def r8_recombination_operators(ctx):
                                     bad.append(where + ("pc = 1 but trial vector %s keeps mutant genes" % got,))
                                 elif pc == 0.0 and len(from_base) != 1:
                                     bad.append(where + ("pc = 0 but trial vector %s takes %d positions from the base" % (got, len(from_base)),))
+        # documented: `Err` if there are fewer than two populations on the stack - an error, not a panic, and the same for both twins
+        short = []
+        for height in (0, 1):
+            me = Sym("self", {F.field_index(adt, "pc"): 0.5})
+
+            def popf0(interp, env, f, args, opt=False, height=height):
+                if height < 1:
+                    return NONE if opt else "DIVERGE"
+                return some(Vec("mut")) if opt else Vec("mut")
+
+            def cur0(interp, env, f, args, opt=False, height=height):
+                if height < 2:
+                    return NONE if opt else "DIVERGE"
+                return some(Vec("base", True)) if opt else Vec("base", True)
+            extra0 = {"mahf::state::common::Populations::try_pop": lambda i_, e_, f_, a_: popf0(i_, e_, f_, a_, True), "mahf::state::common::Populations::pop": popf0,
+                      "mahf::state::common::Populations::get_current": lambda i_, e_, f_, a_: cur0(i_, e_, f_, a_, True), "mahf::state::common::Populations::current": cur0,
+                      "mahf::state::common::Populations::push": Agg("tuple", None, None, []), "mahf::problems::VectorProblem::dimension": 2,
+                      "mahf::state::common::Populations::len": height, "mahf::state::common::Populations::is_empty": height == 0}
+            it = install(Interp(fn.body, chain(draw_oracle((), 0.0, extra0), coll_oracle, std_oracle), [me, Sym("problem"), Sym("state")], facts=F,
+                                inline=lambda k: k.startswith("mahf::problems::individual::") or k.startswith("mahf::population::") or "as mahf::population::" in k, max_visits=20))
+            it.init_state = {"heap": {"mut": (Agg("adt", IND, "Individual", [Vec("m0"), NONE]),), "m0": (Sym("m"), Sym("m")), "base": ()}, "next_vec": 0}
+            try:
+                for p in it.run():
+                    if p.end != "return" or not (isinstance(p.ret, Agg) and p.ret.variant == "Err"):
+                        short.append((height, "%s %s" % ("panics" if p.end in ("panic", "diverge") else p.end, p.ret if p.end == "return" else "")))
+            except NeedDraw:
+                short.append((height, "proceeds to draw random numbers"))
+        ctx.check(not short, "C13.R8", fn.key, "too-few-populations-is-an-error", "%s population(s) on the stack (documented: `Err` if there are fewer than two): the component %s" % (short[0] if short else ("", "")), loc=fn.loc())
         total += cnt
         ctx.check(not bad, "C13.R8", fn.key, "position-wise-mix-with-base", "pc %s, dimension %s, %s individuals, draws %s: the component %s" % (bad[0] if bad else ("", "", "", "", "")),
                   detail="%d draw sequences" % cnt, loc=fn.loc())
